@@ -1,8 +1,8 @@
 SPECIFICATION Spec
 CONSTANTS
-  MaxLen = 3
-  Alphabet = {"X", "CR", "LF", "D", "P"}
-  Truncate = TRUE
+  MaxLen = 5
+  Alphabet = {"X", "CR", "LF", "D", "P", "Q"}
+  Truncate = FALSE
   DEV_Lookahead4 = FALSE
   DEV_EofPending = FALSE
   DEV_BareCr = FALSE
